@@ -5,6 +5,7 @@
 #define protected public
 #include <iostream>
 #include <fstream>
+#include <limits>
 #include "cxx/verif_stream_model.h"
 #include "clstepcore/sdai.h"
 #include "repo/expdict_iface.h"
